@@ -1,0 +1,27 @@
+//go:build verif
+
+package larking
+
+import "google.golang.org/genproto/googleapis/api/annotations"
+
+// VerifSelectRules builds a ruleSelector from one rule per selector (setRules)
+// and returns, in order, the positions of the rules that getRules returns for
+// name. It is compiled only with the "verif" build tag and changes no
+// behaviour. A panic of setRules is not recovered here.
+func VerifSelectRules(selectors []string, name string) []int {
+	rules := make([]*annotations.HttpRule, len(selectors))
+	for i, s := range selectors {
+		rules[i] = &annotations.HttpRule{Selector: s}
+	}
+	var rs ruleSelector
+	rs.setRules(rules)
+	idx := []int{}
+	for _, r := range rs.getRules(name) {
+		for i := range rules {
+			if rules[i] == r {
+				idx = append(idx, i)
+			}
+		}
+	}
+	return idx
+}
